@@ -71,38 +71,123 @@ def _is_fmt_node(pn):
         any('format' in str(m) or 'panic' in str(m) for m in (pn.get('expn') or []))
 
 
-def _bound_value_only_formatted(root, call):
-    """`let v = <call>.<option plumbing>;` where every use of v is an argument of a formatting call (error message)"""
-    from ..thir import walk
-    def contains_via_chain(e):
-        # the call is reached from the initialiser through method receivers / reference plumbing only
-        while isinstance(e, dict):
-            if e is call:
-                return True
-            k = e.get('k')
-            if k in ('Borrow', 'Deref', 'NeverToAny', 'PointerCoercion', 'ByUse', 'Scope'):
-                e = e.get('e')
-            elif k == 'Call' and e.get('args'):
-                e = e['args'][0]
-            else:
-                return False
+PLUMBING = ('Borrow', 'Deref', 'NeverToAny', 'PointerCoercion', 'ByUse', 'Scope', 'Tuple', 'Cast')
+OPTION_PLUMBING = ('cloned', 'copied', 'unwrap_or_else', 'unwrap', 'expect', 'as_ref', 'unwrap_or')
+
+
+def _pat_binds(pat):
+    if pat.get('k') == 'Binding':
+        yield pat['var']
+        if pat.get('sub'):
+            yield from _pat_binds(pat['sub'])
+    for f in pat.get('fields', []):
+        yield from _pat_binds(f['pat'])
+    for key in ('pats', 'prefix', 'suffix'):
+        for p in pat.get(key, []) or []:
+            yield from _pat_binds(p)
+    if pat.get('k') == 'Deref' and pat.get('sub'):
+        yield from _pat_binds(pat['sub'])
+
+
+def _only_reaches_messages(lib, body, node, depth=0):
+    """does the value computed at `node` (an expression of `body`) reach nothing but the text of an error / panic message?
+    Followed: reference / tuple / Option plumbing upwards, `let` bindings (any pattern) to every use of the bound variables,
+    arguments of crate-local functions and closures to the uses of the corresponding parameter (recursively)."""
+    if depth > 4:
         return False
-    var = None
+    root = body.get('root')
+    anc_of = {}
+    for n, anc in walk_anc(root):
+        anc_of[id(n)] = anc
+    anc = anc_of.get(id(node))
+    if anc is None:
+        return False
+    # 1. directly inside a formatting call
+    if any(_is_fmt_node(pn) for pn, _ in anc):
+        return True
+    # 2. climb through plumbing
+    cur = node
+    rev = list(reversed(anc))
+    for ai, (pn, slot) in enumerate(rev):
+        k = pn.get('k')
+        # an element of the argument tuple of a call through a closure variable: `f(a, b)` is `Fn::call(&f, (a, b))`
+        if k == 'Tuple' and ai + 1 < len(rev) and rev[ai + 1][0].get('k') == 'Call' and \
+                strip_generics((rev[ai + 1][0].get('callee') or {}).get('path') or '') in ('std::ops::Fn::call', 'std::ops::FnMut::call_mut', 'std::ops::FnOnce::call_once') \
+                and len(rev[ai + 1][0].get('args', [])) == 2 and rev[ai + 1][0]['args'][1] is pn:
+            call = rev[ai + 1][0]
+            target = lib.bodies.get((call['callee'].get('resolved') or ''))
+            pos = [i for i, a in enumerate(pn.get('elems', [])) if a is cur]
+            if target is None or not pos:
+                return False
+            params = target.get('params', [])
+            if params and params[0].get('pat') is None:
+                params = params[1:]
+            if pos[0] >= len(params) or not params[pos[0]].get('pat'):
+                return False
+            vars_ = list(_pat_binds(params[pos[0]]['pat']))
+            return bool(vars_) and all(_var_only_reaches_messages(lib, target, v, depth + 1) for v in vars_)
+        if k in PLUMBING:
+            cur = pn
+            continue
+        if k == 'Call' and pn.get('args') and pn['args'][0] is cur and cname(pn) in OPTION_PLUMBING:
+            cur = pn
+            continue
+        if k == 'Call' and pn.get('callee') and any(a is cur for a in pn['args']):
+            # an argument of a crate-local function or closure: follow the parameter
+            pos = [i for i, a in enumerate(pn['args']) if a is cur][0]
+            cal = pn['callee']
+            target = None
+            if cal.get('closure'):
+                target = lib.bodies.get(cal['closure'])
+            elif cal.get('crate') == lib.f['crate']:
+                target = lib.body(strip_generics(cal.get('resolved') or cal['path']))
+            if target is None:
+                return False
+            params = target.get('params', [])
+            if params and params[0].get('pat') is None:      # a closure's own environment parameter
+                params = params[1:]
+            if pos >= len(params) or not params[pos].get('pat'):
+                return False
+            vars_ = list(_pat_binds(params[pos]['pat']))
+            return bool(vars_) and all(_var_only_reaches_messages(lib, target, v, depth + 1) for v in vars_)
+        break
+    # 3. the initialiser of a `let`: every variable the pattern binds
     for blk in walk(root):
         if blk.get('k') != 'Block':
             continue
         for st in blk.get('stmts', []):
-            if st.get('k') != 'Expr' and st.get('init') is not None and st['pat'].get('k') == 'Binding' and not st['pat'].get('sub') \
-                    and contains_via_chain(st['init']):
-                var = st['pat']['var']
-    if var is None:
-        return False
+            if st.get('k') != 'Expr' and st.get('init') is not None:
+                init = st['init']
+                if init is cur or _reaches_via_plumbing(init, cur):
+                    vars_ = list(_pat_binds(st['pat']))
+                    return bool(vars_) and all(_var_only_reaches_messages(lib, body, v, depth + 1) for v in vars_)
+    return False
+
+
+def _reaches_via_plumbing(e, target):
+    while isinstance(e, dict):
+        if e is target:
+            return True
+        k = e.get('k')
+        if k in PLUMBING and k != 'Tuple':
+            e = e.get('e')
+        elif k == 'Tuple':
+            return any(_reaches_via_plumbing(x, target) for x in e.get('elems', []))
+        elif k == 'Call' and e.get('args') and cname(e) in OPTION_PLUMBING:
+            e = e['args'][0]
+        else:
+            return False
+    return False
+
+
+def _var_only_reaches_messages(lib, body, var, depth):
     uses = 0
-    for n, anc in walk_anc(root):
-        if n.get('k') in ('Var', 'Upvar') and n.get('var') == var:
-            uses += 1
-            if not any(_is_fmt_node(pn) for pn, _ in anc):
-                return False
+    for b in lib.with_closures(body):
+        for n, anc in walk_anc(b.get('root')):
+            if n.get('k') in ('Var', 'Upvar') and n.get('var') == var:
+                uses += 1
+                if not _only_reaches_messages(lib, b, n, depth):
+                    return False
     return uses > 0
 
 
@@ -152,7 +237,7 @@ def run(chk):
                              (strip_generics(pn['callee'].get('path') or '').startswith(('std::fmt::', 'core::fmt::', 'core::panicking::')))
                              for pn, _ in anc) or any('format' in str(m) or 'panic' in str(m) for pn, _ in anc for m in (pn.get('expn') or []))
                 if not in_fmt:
-                    in_fmt = _bound_value_only_formatted(bb.get('root'), x)
+                    in_fmt = _only_reaches_messages(lib, bb, x)
                 boundary_elem = 'RowBoundary' in ty0 and name == 'first'
                 ok = in_fmt or boundary_elem
                 chk.ob('R8.1', "%s applies `%s` (%s) to a lane array of dimension type %s%s" %
